@@ -637,6 +637,16 @@ def malformed_variants(rng, tree):
             nx = x + [x[-1]]
         yield 'wrong-arity', {'ill-sorted', 'syntax'}, \
             tree[:i] + [_treplace(tree[i], p, nx)] + tree[i + 1:]
+    # indexed operators with an index out of range
+    idxs = [(p, x) for p, x in _tpaths(tree[i]) if isinstance(x, list)
+            and len(x) == 4 and x[0] == '_' and x[1] == 'extract']
+    if idxs:
+        p, x = rng.choice(idxs)
+        for bump in (1, 2, 3, 4, 5, 6, 7, 8):
+            # (one of these makes the upper index equal to the width)
+            nx = ['_', 'extract', str(int(x[2]) + bump), x[3]]
+            yield 'extract-out-of-range', {'ill-sorted'}, \
+                tree[:i] + [_treplace(tree[i], p, nx)] + tree[i + 1:]
     # ill-sorted application: swap in a term of another sort
     # (a numeral in an arithmetic position is not in the list: the parser
     # documents that it reads integer constants as reals where needed)
@@ -813,6 +823,14 @@ CORNER_MALFORMED = [
      '(declare-fun f (Int) Int)(assert (= (f true) 1))'),
     ('ill-sorted', {'ill-sorted'},
      '(define-fun f ((a Int)) Bool a)'),
+    ('extract-out-of-range', {'ill-sorted'},
+     '(declare-fun b () (_ BitVec 8))(assert (= ((_ extract 8 1) b) b))'),
+    ('extract-out-of-range', {'ill-sorted'},
+     '(declare-fun b () (_ BitVec 8))(assert (= ((_ extract 8 8) b) #b1))'),
+    ('extract-out-of-range', {'ill-sorted'},
+     '(declare-fun b () (_ BitVec 8))(assert (= ((_ extract 2 3) b) #b1))'),
+    ('extract-out-of-range', {'ill-sorted'},
+     '(declare-fun b () (_ BitVec 4))(assert (= ((_ extract 4 2) b) #b101))'),
     ('unbalanced', {'syntax'}, '(declare-fun x () Int)(assert (> x 0)'),
     ('unbalanced', {'syntax'}, '(declare-fun x () Int))(assert (> x 0))'),
     ('unbalanced', {'syntax', 'lexical'}, '(assert (= "abc "abc"))'),
